@@ -475,3 +475,350 @@ Proof.
     try assumption; try (rewrite Hparams; assumption).
   unfold sr_segs in Hsegs. symmetry. exact (em_length _ _ _ Hsegs).
 Qed.
+
+(* ------------------------------------------------------------------ the matched segments come from the path *)
+
+(** a property of the path that passes to its first segment and to the rest after the first
+    separator holds of every value an expression gives to its wildcards *)
+Lemma em_values (P : string -> Prop) :
+  (forall p, P p -> P (seg1 p)) -> (forall p, has_more p = true -> P p -> P (rest_of p)) ->
+  forall ts path vs, P path -> expr_match ts (split_slash path) = Some vs -> Forall P vs.
+Proof.
+  intros H1 H2. induction ts as [|t tr IH]; intros path vs HP.
+  - intro H. apply em_nil_l in H as [_ ->]. constructor.
+  - rewrite (split_slash_eq path).
+    assert (Htl : forall vs0, expr_match tr (if has_more path then split_slash (rest_of path) else []) = Some vs0 ->
+                              Forall P vs0).
+    { intros vs0 Hm. destruct (has_more path) eqn:Hp.
+      - apply (IH (rest_of path)); [apply H2; assumption | exact Hm].
+      - apply em_nil_r in Hm as [_ ->]. constructor. }
+    destruct t as [s|n|n].
+    + rewrite em_lit. destruct (String.eqb s (seg1 path)); [|discriminate]. apply Htl.
+    + rewrite em_wild. destruct (String.eqb (seg1 path) ""); [discriminate|].
+      destruct (expr_match tr _) as [v0|] eqn:E; [|discriminate]. intro H. inversion H; subst.
+      constructor; [apply H1; assumption | apply Htl; reflexivity].
+    + destruct tr as [|t' tr']; [|rewrite em_free_more; discriminate].
+      rewrite em_free_last.
+      assert (Hj : join_slash (seg1 path :: (if has_more path then split_slash (rest_of path) else [])) = path).
+      { rewrite <- (split_slash_eq path). apply join_split. }
+      rewrite Hj. destruct (String.eqb path ""); [discriminate|]. intro H. inversion H; subst.
+      constructor; [assumption | constructor].
+Qed.
+
+Lemma prefix_app_r sub v b : prefix sub v = true -> prefix sub (v ++ b) = true.
+Proof.
+  revert v. induction sub as [|c s IH]; intros v H; [apply prefix_nil_l|].
+  destruct v as [|d v']; [discriminate|]. simpl String.append. rewrite prefix_cons in *.
+  apply andb_true_iff in H as [E H]. rewrite E. simpl. apply IH. exact H.
+Qed.
+
+Lemma contains_app_l sub v b : contains sub v = true -> contains sub (v ++ b) = true.
+Proof.
+  induction v as [|c v IH]; intro H.
+  - simpl in H. rewrite orb_false_r in H. destruct sub; [|discriminate].
+    destruct b; reflexivity.
+  - simpl String.append. rewrite contains_cons in *. apply orb_true_iff in H as [H|H].
+    + assert (P := prefix_app_r sub (String c v) b H).
+      change (String c v ++ b)%string with (String c (v ++ b)) in P. rewrite P. reflexivity.
+    + rewrite (IH H). apply orb_true_r.
+Qed.
+
+Lemma contains_app_r sub a s : contains sub s = true -> contains sub (a ++ s) = true.
+Proof.
+  intro H. induction a as [|c a IH]; [exact H|]. simpl String.append. rewrite contains_cons, IH. apply orb_true_r.
+Qed.
+
+Lemma has_enc_slash_app_l v b : has_enc_slash v = true -> has_enc_slash (v ++ b) = true.
+Proof.
+  unfold has_enc_slash. intro H. apply orb_true_iff in H as [H|H];
+    rewrite (contains_app_l _ _ _ H); [reflexivity | apply orb_true_r].
+Qed.
+
+Lemma has_enc_slash_app_r a s : has_enc_slash s = true -> has_enc_slash (a ++ s) = true.
+Proof.
+  unfold has_enc_slash. intro H. apply orb_true_iff in H as [H|H];
+    rewrite (contains_app_r _ a _ H); [reflexivity | apply orb_true_r].
+Qed.
+
+Lemma has_enc_slash_seg1 p : has_enc_slash (seg1 p) = true -> has_enc_slash p = true.
+Proof.
+  intro H. rewrite <- (stake_sdrop (next_sep p) p). apply has_enc_slash_app_l. exact H.
+Qed.
+
+Lemma has_enc_slash_rest p : has_more p = true -> has_enc_slash (rest_of p) = true -> has_enc_slash p = true.
+Proof.
+  intros Hm H. rewrite <- (seg1_rest p Hm). apply has_enc_slash_app_r, has_enc_slash_app_r. exact H.
+Qed.
+
+(** cutting a validly encoded path at a '/' gives validly encoded pieces *)
+Lemma valid_enc_cut a b : valid_enc (a ++ "/" ++ b) -> valid_enc a /\ valid_enc b.
+Proof.
+  unfold valid_enc.
+  induction a as [| c r Hc IH | x y r IH | | x] using pct_ind; intro H.
+  - split; [discriminate|]. simpl in H. destruct (pct_decode b); [discriminate | exact H].
+  - change (String c r ++ "/" ++ b)%string with (String c (r ++ "/" ++ b)) in H.
+    rewrite (pct_decode_nonpct c (r ++ "/" ++ b)) in H by assumption. rewrite (pct_decode_nonpct c r) by assumption.
+    destruct (pct_decode (r ++ "/" ++ b)) eqn:E; [|simpl in H; congruence].
+    destruct IH as [I1 I2]; [congruence|]. split; [|exact I2].
+    destruct (pct_decode r); [discriminate | congruence].
+  - change (String pct (String x (String y r)) ++ "/" ++ b)%string
+      with (String pct (String x (String y (r ++ "/" ++ b)))) in H.
+    destruct (hexval x) as [hx|] eqn:Hx; [|unfold pct in H; simpl in H; rewrite Hx in H; congruence].
+    destruct (hexval y) as [hy|] eqn:Hy; [|unfold pct in H; simpl in H; rewrite Hx, Hy in H; congruence].
+    rewrite (pct_decode_esc _ _ _ _ (r ++ "/" ++ b) Hx Hy) in H. rewrite (pct_decode_esc _ _ _ _ r Hx Hy).
+    destruct (pct_decode (r ++ "/" ++ b)) eqn:E; [|simpl in H; congruence].
+    destruct IH as [I1 I2]; [congruence|]. split; [|exact I2].
+    destruct (pct_decode r); [discriminate | congruence].
+  - exfalso. apply H. destruct b; reflexivity.
+  - exfalso. apply H. unfold pct. simpl. destruct (hexval x); reflexivity.
+Qed.
+
+Lemma valid_enc_seg1 p : valid_enc p -> valid_enc (seg1 p).
+Proof.
+  intro H. destruct (has_more p) eqn:Hm.
+  - rewrite <- (seg1_rest p Hm) in H. apply valid_enc_cut in H. tauto.
+  - rewrite (seg1_all p Hm). exact H.
+Qed.
+
+Lemma valid_enc_rest p : has_more p = true -> valid_enc p -> valid_enc (rest_of p).
+Proof. intros Hm H. rewrite <- (seg1_rest p Hm) in H. apply valid_enc_cut in H. tauto. Qed.
+
+(** the tree as it is now, and a request view with RawPath (what every entry point produces):
+    no guard is left *)
+Lemma route_guards_now eng s q segs :
+  String.eqb (q_rawpath q) "" = false -> route_guards true true true D8 eng s q segs = false.
+Proof.
+  intro Hr. unfold route_guards. cbv zeta.
+  assert (G : forall g, (forall v, g (rl_slash (sr_def s)) q v = false) ->
+              on_params g (rl_slash (sr_def s)) q (declared_names (sr_tokens s)) segs (rt_params (sr_route s)) = false).
+  { intros g Hg. unfold on_params. induction (rt_params (sr_route s)) as [|p r IH]; [reflexivity|].
+    cbn [existsb]. rewrite IH, orb_false_r. unfold on_param.
+    destruct (assoc_first _ _ _); [apply Hg | reflexivity]. }
+  rewrite !G.
+  - unfold guard_F1, guard_F4. reflexivity.
+  - intro v. unfold guard_F8, guard_F8_val. cbn [is8 negb andb].
+    destruct (spec_decode true v); [|apply andb_false_r]. apply andb_false_r.
+  - intro v. unfold guard_F7, guard_F7_val, guard_F7b. cbn [is7 negb andb].
+    destruct (rl_slash (sr_def s)); apply andb_false_r.
+  - intro v. unfold guard_F6. cbn [negb andb orb]. rewrite Hr. reflexivity.
+Qed.
+
+Theorem lookup_answers_spec_now : forall eng ds es t q,
+  load true true ds = Loaded es t ->
+  String.eqb (q_rawpath q) "" = false -> valid_enc (q_rawpath q) ->
+  forall k, In k (snd (serve true true true true D8 eng es t q)) ->
+  forall s segs, nth_error (flat_routes 0 ds) (k_vid k) = Some s -> sr_segs s q = Some segs ->
+    k_res k = spec_answer eng s q segs.
+Proof.
+  intros eng ds es t q Hload Hr Hvalid k Hk s segs Hs Hsegs.
+  assert (Hlp : lookup_path q = q_rawpath q) by (unfold lookup_path; rewrite Hr; reflexivity).
+  apply (lookup_answers_spec true true true D8 eng ds es t q Hload k Hk s segs Hs Hsegs).
+  - unfold sr_segs in Hsegs. rewrite Hlp in Hsegs.
+    apply (em_values valid_enc valid_enc_seg1 valid_enc_rest _ _ _ Hvalid Hsegs).
+  - unfold sr_segs in Hsegs. rewrite Hlp in Hsegs. unfold from_path.
+    refine (em_values (fun v => has_enc_slash v = true -> has_enc_slash (q_rawpath q) = true) _ _ _ _ _ _ Hsegs).
+    + intros p Hp H. apply Hp. apply has_enc_slash_seg1. exact H.
+    + intros p Hm Hp H. apply Hp. apply has_enc_slash_rest; assumption.
+    + tauto.
+  - apply route_guards_now. exact Hr.
+Qed.
+
+(* ------------------------------------------------------------------ the entry returned, and no panic *)
+
+(** positions of nodes end at a free wildcard: counted on the pieces actually walked *)
+Fixpoint walked (pi : list piece) : nat :=
+  match pi with
+  | [] => 0
+  | PS _ :: r => walked r
+  | PW :: r => S (walked r)
+  | PC :: _ => 1
+  end.
+
+Lemma pos_match_length : forall pi path vals, pos_match pi path = Some vals -> length vals = walked pi.
+Proof.
+  induction pi as [|[s| |] r IH]; intros path vals; simpl.
+  - destruct (String.eqb path ""); [|discriminate]. intro H. inversion H. reflexivity.
+  - destruct (prefix s path); [apply IH | discriminate].
+  - destruct (Nat.eqb (next_sep path) 0); [discriminate|].
+    destruct (pos_match r (sdrop (next_sep path) path)) as [v|] eqn:E; [|discriminate].
+    intro H. inversion H. simpl. rewrite (IH _ _ E). reflexivity.
+  - destruct (String.eqb path ""); [discriminate|]. intro H. inversion H. reflexivity.
+Qed.
+
+(** for the positions that exist in a tree the free wildcard is last, so both counts agree *)
+Lemma at_pos_walked t pi node : at_pos t pi node -> walked pi = count_wild (flat pi).
+Proof.
+  intro H. induction H; simpl; try reflexivity.
+  - unfold fcs. rewrite count_wild_app. rewrite IHat_pos.
+    assert (E : count_wild (map FC (chars (t_path child))) = 0) by (induction (chars (t_path child)); simpl; auto).
+    rewrite E. reflexivity.
+  - rewrite IHat_pos. reflexivity.
+Qed.
+
+Lemma param_match_no_panic fx6 fx7 eng sl q (keys vals : list string) p :
+  length keys = length vals -> param_match fx6 fx7 eng sl q keys vals p <> MPanic.
+Proof.
+  intro Hl. unfold param_match. destruct (index_of (pp_name p) keys) as [i|] eqn:Ei; [|discriminate].
+  destruct (index_in_range _ _ _ _ Hl Ei) as (v & Ev). rewrite Ev.
+  destruct (String.eqb (q_rawpath q) ""); [destruct (tm_match _ _ _ _); discriminate|].
+  destruct sl.
+  - destruct (contains_enc_slash fx7 (q_rawpath q)); [discriminate|]. destruct (tm_match _ _ _ _); discriminate.
+  - destruct (tm_match _ _ _ _); discriminate.
+  - destruct (tm_match _ _ _ _); discriminate.
+Qed.
+
+Lemma route_matches_no_panic fx1 fx6 fx7 eng cm q (keys vals : list string) :
+  length keys = length vals -> route_matches fx1 fx6 fx7 eng cm q keys vals <> MPanic.
+Proof.
+  intro Hl. unfold route_matches.
+  destruct (negb (scheme_match _ q)); [discriminate|].
+  destruct (negb (method_match _ q)); [discriminate|].
+  destruct (negb (hosts_match _ _ _ q)); [discriminate|].
+  induction (cm_params cm) as [|p r IH]; simpl; [discriminate|].
+  destruct (param_match fx6 fx7 eng (cm_slash cm) q keys vals p) eqn:E; try discriminate; [exact IH|].
+  exfalso. exact (param_match_no_panic _ _ _ _ _ _ _ _ Hl E).
+Qed.
+
+Lemma try_values_panic m keys caps vs :
+  fst (try_values m keys caps vs) = None -> exists k, In k (snd (try_values m keys caps vs)) /\ k_res k = MPanic.
+Proof.
+  induction vs as [|v r IH]; simpl; [discriminate|].
+  destruct (m v keys caps) eqn:E.
+  - discriminate.
+  - destruct (try_values m keys caps r) as [x cs]. simpl in *. intro H.
+    destruct (IH H) as (k & Hk & Hr). exists k. auto.
+  - intros _. eexists. split; [left; reflexivity | reflexivity].
+Qed.
+
+(** a lookup panics only through a panicking matcher call *)
+Lemma find_node_panic fx2 fx5 m n :
+  forall path caps, fst (find_node fx2 fx5 m n path caps) = FPanic ->
+    exists k, In k (snd (find_node fx2 fx5 m n path caps)) /\ k_res k = MPanic.
+Proof.
+  induction n as [p st w c vs ks bt IHs IHw IHc] using tree_ind'.
+  set (n := Node p st w c vs ks bt) in *.
+  intros path caps. destruct path as [|first rest].
+  - change (find_node fx2 fx5 m n "" caps) with (here_part fx5 m n caps). unfold here_part.
+    destruct (is_nil (t_values n)); [discriminate|].
+    assert (P := try_values_panic m (t_keys n) caps (t_values n)).
+    destruct (try_values m (t_keys n) caps (t_values n)) as [[[v|]|] cs]; try discriminate.
+    intros _. apply P. reflexivity.
+  - rewrite find_node_cons.
+    assert (Hs : fst (static_part fx2 fx5 m n first rest caps) = FPanic ->
+                 exists k, In k (snd (static_part fx2 fx5 m n first rest caps)) /\ k_res k = MPanic).
+    { unfold static_part. destruct (find_static first (t_statics n)) as [child|] eqn:Ef; [|discriminate].
+      apply find_static_In in Ef. destruct (prefix (t_path child) (String first rest)); [|discriminate].
+      rewrite Forall_forall in IHs. apply (IHs _ Ef). }
+    destruct (static_part fx2 fx5 m n first rest caps) as [[|[x|] caps1 b] cs1]; cbn [fst snd] in Hs |- *;
+      try discriminate; [intros _; apply Hs; reflexivity|].
+    destruct b; [|discriminate].
+    assert (Hw : fst (wild_part fx2 fx5 m n (String first rest) caps1) = Some FPanic ->
+                 exists k, In k (snd (wild_part fx2 fx5 m n (String first rest) caps1)) /\ k_res k = MPanic).
+    { unfold wild_part. destruct (t_wild n) as [ww|] eqn:Ew; [|discriminate].
+      destruct (Nat.eqb (next_sep (String first rest)) 0); [discriminate|].
+      assert (I := IHw ww Ew (sdrop (next_sep (String first rest)) (String first rest))
+                       (caps1 ++ [stake (next_sep (String first rest)) (String first rest)])).
+      destruct (find_node fx2 fx5 m ww _ _) as [[|[y|] cc bb] cs]; cbn [fst snd wild_res] in *;
+        try discriminate; [intros _; apply I; reflexivity|].
+      destruct bb; discriminate. }
+    destruct (wild_part fx2 fx5 m n (String first rest) caps1) as [[r|] cs2]; cbn [fst snd] in Hw |- *.
+    + intro E. subst r. destruct (Hw eq_refl) as (k & Hk & Hr). exists k. split; [apply in_or_app; auto | exact Hr].
+    + destruct (t_catch n) as [cc|] eqn:Ec; [|discriminate].
+      assert (Hc : fst (catch_part fx2 m n cc (String first rest) caps1) = FPanic ->
+                   exists k, In k (snd (catch_part fx2 m n cc (String first rest) caps1)) /\ k_res k = MPanic).
+      { unfold catch_part.
+        assert (P := try_values_panic m (if fx2 then t_keys cc else t_keys n)
+                       (if fx2 then caps1 ++ [String first rest] else caps1) (t_values cc)).
+        destruct (try_values m _ _ (t_values cc)) as [[[v|]|] cs]; try discriminate.
+        intros _. apply P. reflexivity. }
+      destruct (catch_part fx2 m n cc (String first rest) caps1) as [r cs3]. cbn [fst snd] in Hc |- *.
+      intro E. destruct (Hc E) as (k & Hk & Hr). exists k. split; [|exact Hr].
+      apply in_or_app. right. apply in_or_app. auto.
+Qed.
+
+Lemma Forall2_nth_ex {A B} (R : A -> B -> Prop) l1 l2 : Forall2 R l1 l2 ->
+  forall i a, nth_error l1 i = Some a -> exists b, nth_error l2 i = Some b /\ R a b.
+Proof.
+  intro H. induction H as [|x y l1 l2 Hxy H IH]; intros [|i] a; simpl; try discriminate.
+  - intro E. inversion E; subst. exists y. auto.
+  - apply IH.
+Qed.
+
+(** what a node reached by a lookup stores, in terms of the rule set *)
+Lemma node_entry fx4 ds es t q pi node vals v :
+  load true fx4 ds = Loaded es t ->
+  at_pos t pi node -> In v (t_values node) -> pos_match pi (lookup_path q) = Some vals ->
+  exists e s, nth_error es v = Some e /\ nth_error (flat_routes 0 ds) v = Some s /\ entry_of fx4 e s /\
+    length (t_keys node) = length vals /\
+    (forall segs, sr_segs s q = Some segs -> t_keys node = declared_names (sr_tokens s) /\ vals = segs).
+Proof.
+  intros Hload Hat Hv Hm.
+  destruct (loaded_inv _ _ _ _ Hload) as [_ Hinv].
+  destruct (at_pos_entry es t pi node Hat [] v Hinv Hv) as (e & He & Hpos & Hnames).
+  destruct (Forall2_nth_ex _ _ _ (loaded_table _ _ _ _ Hload) _ _ He) as (s & Hs & Hent).
+  exists e, s. repeat split; try assumption.
+  - rewrite Hnames, enames_count, Hpos. simpl. rewrite <- (at_pos_walked _ _ _ Hat).
+    symmetry. exact (pos_match_length _ _ _ Hm).
+  - destruct Hent as (cr & _ & _ & _ & Hpath & _ & _).
+    unfold sr_segs, sr_tokens in H. rewrite <- Hpath in H.
+    destruct (expr_to_pos _ _ _ H) as [F1 F2].
+    unfold sr_tokens. rewrite <- Hpath, <- F2. exact Hnames.
+  - destruct Hent as (cr & _ & _ & _ & Hpath & _ & _).
+    unfold sr_segs, sr_tokens in H. rewrite <- Hpath in H.
+    destruct (expr_to_pos _ _ _ H) as [F1 F2].
+    rewrite pos_match_flat in Hm. simpl in Hpos. rewrite <- Hpos, F1 in Hm. inversion Hm. reflexivity.
+Qed.
+
+(** no request makes the lookup of a loaded rule set panic (the tree as it is now) *)
+Theorem lookup_no_panic : forall fx1 fx4 fx6 fx7 eng ds es t q,
+  load true fx4 ds = Loaded es t -> fst (serve fx1 true true fx6 fx7 eng es t q) <> OPanic.
+Proof.
+  intros fx1 fx4 fx6 fx7 eng ds es t q Hload.
+  set (m := matcher_of fx1 fx6 fx7 eng es q).
+  destruct (find_node_good m t (lookup_path q) []) as [Hcalls Hfound].
+  assert (Hpan := find_node_panic true true m t (lookup_path q) []).
+  unfold serve, tree_find. fold m.
+  destruct (find_node true true m t (lookup_path q) []) as [[|[[keys v]|] params b] cs] eqn:Efn;
+    cbn [fst snd] in *.
+  - (* a panicking matcher call: impossible, keys and values have the same length *)
+    exfalso. destruct (Hpan eq_refl) as (k & Hk & Hr).
+    destruct (Hcalls k Hk) as (pi & node & vals & Hat & Hv & Hm & Hkeys & Hvals).
+    destruct (node_entry fx4 ds es t q pi node vals (k_vid k) Hload Hat Hv Hm) as (e & s & He & _ & _ & Hlen & _).
+    assert (Hres : call_res m k).
+    { apply (find_node_res true true m t (lookup_path q) []). rewrite Efn. exact Hk. }
+    unfold call_res, m, matcher_of in Hres. rewrite He, Hr in Hres. symmetry in Hres.
+    revert Hres. apply route_matches_no_panic. rewrite Hkeys, Hvals. exact Hlen.
+  - destruct Hfound as (pi & node & vals & Hat & Hv & Hm & Hkeys & Hparams).
+    destruct (node_entry fx4 ds es t q pi node vals v Hload Hat Hv Hm) as (e & s & He & _ & _ & Hlen & _).
+    simpl in Hparams. subst keys params.
+    rewrite (params_of_named _ _ Hlen), He.
+    destruct (execute fx7 (cm_slash (ce_m e)) q _). discriminate.
+  - discriminate.
+Qed.
+
+(** the entry a lookup returns: the rule of a route of the rule set, and — if that route's
+    expression matches the request path with the segments [segs] — the captures Execute
+    produces from exactly the named segments *)
+Theorem lookup_entry : forall fx1 fx4 fx6 fx7 eng ds es t q r caps rej cs,
+  load true fx4 ds = Loaded es t ->
+  serve fx1 true true fx6 fx7 eng es t q = (ORule r caps rej, cs) ->
+  exists v s, nth_error (flat_routes 0 ds) v = Some s /\ sr_rule s = r /\
+    forall segs, sr_segs s q = Some segs ->
+      execute fx7 (rl_slash (sr_def s)) q (map_of (named_pairs (declared_names (sr_tokens s)) segs)) = (caps, rej).
+Proof.
+  intros fx1 fx4 fx6 fx7 eng ds es t q r caps rej cs Hload.
+  set (m := matcher_of fx1 fx6 fx7 eng es q).
+  destruct (find_node_good m t (lookup_path q) []) as [_ Hfound].
+  unfold serve, tree_find. fold m.
+  destruct (find_node true true m t (lookup_path q) []) as [[|[[keys v]|] params b] cs0]; cbn [fst] in *;
+    try discriminate.
+  destruct Hfound as (pi & node & vals & Hat & Hv & Hm & Hkeys & Hparams).
+  destruct (node_entry fx4 ds es t q pi node vals v Hload Hat Hv Hm) as (e & s & He & Hs & Hent & Hlen & Hspec).
+  simpl in Hparams. subst keys params.
+  rewrite (params_of_named _ _ Hlen), He.
+  destruct (execute fx7 (cm_slash (ce_m e)) q (map_of (named_pairs (t_keys node) vals))) as [caps0 rej0] eqn:Eex.
+  intro H. inversion H; subst. clear H.
+  destruct Hent as (cr & _ & _ & Hrule & _ & _ & Hslash).
+  exists v, s. split; [exact Hs|]. split; [symmetry; exact Hrule|].
+  intros segs Hsegs. destruct (Hspec segs Hsegs) as [<- <-]. rewrite <- Hslash. exact Eex.
+Qed.
